@@ -2,6 +2,7 @@ package batching
 
 import (
 	"context"
+	"sync"
 
 	"reduction.dev/reduction/util/verifhook"
 )
@@ -17,6 +18,11 @@ type ReorderFetcher[T, R any] struct {
 	fetchBatch BatchFetcher[T, R]
 	errChan    chan error
 	buffer     *ReorderBuffer[[]R]
+
+	// flushMu makes taking a batch and reserving its sequence number one
+	// atomic step so that concurrent flushers (size and timeout) can't reserve
+	// sequence numbers in a different order than they took their batches.
+	flushMu sync.Mutex
 }
 
 type NewReorderFetcherParams[T, R any] struct {
@@ -73,16 +79,19 @@ func (d *ReorderFetcher[T, R]) Flush(ctx context.Context) {
 func (d *ReorderFetcher[T, R]) flush(ctx context.Context, token BatchToken) {
 	verifhook.At("batching.flush.enter")
 	defer verifhook.At("batching.flush.exit")
+	d.flushMu.Lock()
 	events := d.batcher.Flush(token)
 	if d.batcher == nil {
 		panic("batcher became nil")
 	}
 	if len(events) == 0 {
+		d.flushMu.Unlock()
 		return
 	}
 
 	verifhook.At("batching.flush.between")
 	seqNum := d.buffer.Reserve()
+	d.flushMu.Unlock()
 	go func() {
 		defer verifhook.At("batching.fetch.exit", seqNum)
 		result, err := d.fetchBatch(ctx, events)
